@@ -36,8 +36,10 @@ def gen_cases(ctx, n):
             cases.append({'ops': G.history_program(ctx.rng)})
         elif r < 0.72:
             cases.append({'ops': G.rand_program(ctx.rng, ctx.rng.randint(3, 10))})
-        elif r < 0.8:
+        elif r < 0.76:
             cases.append({'ops': G.cancel_program(ctx.rng)})
+        elif r < 0.8:
+            cases.append({'ops': G.shared_program(ctx.rng), 'share': True})
         elif r < 0.84:
             ks = ctx.rng.sample(LABELS, ctx.rng.randint(0, 6))
             cases.append({'dict': 'metadata', 'entries': [[k, ctx.rng.choice([0, 1, 24, 2**32, -1, -2**63])] for k in ks]})
